@@ -16,6 +16,8 @@ JobsC12a == [a |-> << SF("top", "coder"), S("top") >>, b |-> << S("mid") >>]
 JobsC12b == [a |-> << SF("top", "oversize"), S("top") >>, b |-> << R, S("top") >>]
 JobsC12c == [a |-> << SF("top", "notready"), S("mid") >>, b |-> << S("top") >>]
 JobsC12d == [a |-> << RF, R, R >>, b |-> << S("top"), S("mid") >>]
+\* the largest refusable boundary: plaintext of exactly 2^24 - 16 bytes (its ciphertext no longer fits a 24-bit length)
+JobsC12g == [a |-> << SF("top", "oversize_edge"), S("top") >>, b |-> << S("mid") >>]
 JobsC12f == [a |-> << R, RU, R >>, b |-> << S("top"), SF("mid", "coder"), S("top") >>]
 JobsC12e == [a |-> << SF("mid", "logger"), S("top") >>, b |-> << R, R >>]
 ==============================================================================
